@@ -348,6 +348,11 @@ func schedule(c *kit.Ctx, id string, i int) {
 	}
 	ctx()
 	others := set.Members[1:]
+	type sigRec struct {
+		hash common.Hash
+		idx  uint32
+	}
+	lastSig := map[int]sigRec{} // BLS signing is deterministic: signing the same payload again reproduces the earlier signature bytes
 	nev := 20 + r.Intn(50)
 	kinds := map[string]int{}
 	for e := 0; e < nev && !w.bad; e++ {
@@ -414,8 +419,18 @@ func schedule(c *kit.Ctx, id string, i int) {
 		case 3:
 			kind = "stale-round"
 			signRound = new(big.Int).SetUint64(round + 1)
+		case 4, 5:
+			// a member re-uses a signature of its own that was already verified (an earlier vote of
+			// this round index for ANOTHER block) on a vote for b
+			if ls, ok := lastSig[m.I]; ok && ls.idx == idx && ls.hash != b {
+				kind = "replayed-own-signature"
+				signHash = ls.hash
+			}
 		}
 		sig := m.Bls.Sign(forge.VotePayload(signHash, signRound, signIdx))
+		if kind == "valid" {
+			lastSig[m.I] = sigRec{hash: b, idx: idx}
+		}
 		data := &ucon.BlockHashWithVotes{Priority: crypto.Keccak256Hash(b[:]), BlockHash: b, Round: signRound, RoundIndex: signIdx,
 			Vote: &ucon.SingleVote{VoterIdx: uint32(m.Idx), Votes: weight, Signature: sig.Compress().Bytes(), Proof: []byte{9}}}
 		if kind == "stale-index" || kind == "stale-round" {
